@@ -228,8 +228,13 @@ def transient_import_cases(acc, probe, rng, count):
     """An imported file whose forward references shrink from absolute to zero-page size between passes, so that a branch in
     it is out of range in an early pass only: must assemble like the same code in one file."""
     for _ in range(count):
-        k = rng.randrange(40, 60)
-        lib = "start: {\n    bne done\n" + "".join("    lda zpvar + %d\n" % i for i in range(k)) + "done:\n    rts\n}\n.const zpvar = $%02x\n" % rng.randrange(2, 0x80)
+        k = rng.randrange(44, 70)
+        if rng.random() < 0.5:
+            # forward references to a label further down are not emitted in the first pass; in the second one the branch behind
+            # them still sees its target where it was in the first pass: out of range, once
+            lib = "start: {\n" + "".join("    lda table + %d\n" % i for i in range(k)) + "    bne done\n    inx\ndone:\n    rts\n}\ntable:\n    .byte 1, 2, 3, 4\n"
+        else:
+            lib = "start: {\n    bne done\n" + "".join("    lda zpvar + %d\n" % i for i in range(k)) + "done:\n    rts\n}\n.const zpvar = $%02x\n" % rng.randrange(2, 0x80)
         how = rng.choice(['.import * from "lib.asm"', '.import start from "lib.asm"', '.import * as l from "lib.asm"'])
         call = "l.start" if " as l" in how else "start"
         files = {"main.asm": how + "\n    jsr %s\n" % call, "lib.asm": lib}
